@@ -186,6 +186,12 @@ def builtin_redir_lists(r, tier):
         ls += [(a, b, c) for a in BUILTIN_OPS for b in BUILTIN_OPS for c in BUILTIN_OPS]
     for _ in range(36 if tier == "quick" else 400):
         ls.append(tuple(r.choice(BUILTIN_OPS) for _ in range(3 + r.below(2))))
+    # a target that cannot be opened AFTER redirections that succeeded (what the earlier ones opened must be given back)
+    bad = ["> adir", "2> nodir/x", ">> adir", "1> nodir/x"]
+    for a in BUILTIN_OPS:
+        for b in (bad if tier != "quick" else bad[:2]):
+            ls.append((a, b))
+            ls.append((a, a, b))
     return ls
 
 
